@@ -83,8 +83,8 @@ def one_src(rng, op, extra, n, d, kind):
 def gen_ops(rng, tier, ctx=None):
     thorough = tier != "quick"
     small = list(range(1, 21))
-    large = [33, 64, 100, 257] + ([500, 1000] if thorough else [])
-    reps = 3 if thorough else 1
+    large = [33, 64, 100, 257, 500] + ([1000, 2000] if thorough else [])
+    reps = 3 if thorough else 2
     # --- one source, one destination: every permitted offset
     for op, rule, extra in ONE_SRC:
         for n in small + large:
